@@ -108,6 +108,12 @@ def tasks(tier):
                    durs=[0, 1], dur_free=True, strat_menu=[9, 1, 3], strat_free=True,
                    max_unknown=None, sleeper="call", frac=fr)
         out.append({"family": "envelope-every-class", "cfg": cfg, "entry": e, "bound": 0})
+    # long deadlines (an hour) with attempts and backoffs of more than ten minutes each: the
+    # elapsed time is the monotonic clock's, however far apart two readings are
+    for e in Q4:
+        cfg = dict(M=8, deadline=28800, alphabet=["x:T", "ok"], durs=[5600], strat_menu=[8, 8000],
+                   strat_free=True, max_unknown=None, sleeper="call")
+        out.append({"family": "envelope-long-gaps", "cfg": cfg, "entry": e, "bound": 0})
     for t in nest_tasks(Q4, "envelope-reentrant", ["ok", "x:T", "r:R"], bound=1, deadline=3,
                         durs=[0, 2], dur_free=True, strat_menu=[1, 9], overshoot=[0, 3]):
         t["cfg"]["nest"] = dict(t["cfg"]["nest"], script=["x:T", "ok"])
